@@ -20,6 +20,8 @@ type zvC33ConcCase struct {
 	Conc     bool     `json:"concurrent_part"`
 	Scenario string   `json:"scenario"`
 	Events   []string `json:"events"` // applied one after the other, each racing with the hello timer
+	// Burst: the events are delivered back to back from one thread (a flapping link), nothing settles in between
+	Burst bool `json:"back_to_back,omitempty"`
 	Schedule []int    `json:"schedule"`
 	Bound    int      `json:"deviation_bound"`
 }
@@ -27,15 +29,54 @@ type zvC33ConcCase struct {
 func zvC33ConcRun(r *vh.Run, c zvC33ConcCase, only []int) {
 	var stuck, crash string
 	var hellos int
+	var burstSilent bool
 	body := func() {
-		stuck, crash, hellos = "", "", 0
+		stuck, crash, hellos, burstSilent = "", "", 0, false
 		vsched.SetExploring(false)
 		w := zvIsisNew(false, zvC33Ifs(c.Scenario)...)
 		w.link("eth0", false)
 		w.link("eth0", true)
 		vsched.Advance(3 * time.Second) // the next hello is due within the horizon of the explored part
 		vsched.SetExploring(true)
+		if c.Burst {
+			var ups []bool
+			for _, e := range c.Events {
+				ups = append(ups, strings.HasSuffix(e, ":up"))
+			}
+			k := w.linkBurst("eth0", ups)
+			if w.adminErr[k] != "" {
+				crash = w.adminErr[k]
+				return
+			}
+			if p := w.pendingAdmin(); len(p) > 0 {
+				stuck = fmt.Sprintf("device updates %v never return: %s", p, vsched.Describe())
+				return
+			}
+			if ups[len(ups)-1] {
+				// the link is up after the flap: hellos must flow without any further event
+				vsched.SetExploring(false)
+				if a := w.eth("eth0"); a != nil {
+					a.take()
+				}
+				vsched.Advance(10 * time.Second)
+				n := 0
+				if a := w.eth("eth0"); a != nil && !a.closed {
+					for _, s := range w.sent("eth0") {
+						if s.Type == packet.P2P_HELLO {
+							n++
+						}
+					}
+				}
+				if n == 0 {
+					burstSilent = true
+					return
+				}
+			}
+		}
 		for _, e := range c.Events {
+			if c.Burst {
+				break
+			}
 			name := "eth0"
 			if strings.HasPrefix(e, "p:") {
 				name = "lo0"
@@ -88,6 +129,10 @@ func zvC33ConcRun(r *vh.Run, c zvC33ConcCase, only []int) {
 			r.Violation(vh.Sig("clause", "device-update-blocks", "mode", "concurrent"), cc, "%s", stuck)
 			return
 		}
+		if burstSilent {
+			r.Violation(vh.Sig("clause", "no-hello-after-flap", "mode", "concurrent"), cc, "the link flapped (%v back to back) and is up, but the interface sends no hello within 10 s", c.Events)
+			return
+		}
 		if x.Status != vsched.Completed {
 			r.Violation(vh.Sig("clause", "conc-run-"+x.Status.String(), "blocked_in", strings.Join(x.BlockedIn, ",")), cc, "link change racing with the hello sender: execution %s %s %.300s", x.Status, x.Blocked, x.Crash)
 			return
@@ -130,5 +175,13 @@ func zvC33Concurrent(r *vh.Run, idx int) {
 			continue
 		}
 		zvC33ConcRun(r, zvC33ConcCase{Conc: true, Scenario: "active", Events: evs, Bound: bound}, nil)
+	}
+	// a flapping link: the changes arrive back to back
+	for _, evs := range [][]string{{"a:down", "a:up"}, {"a:down", "a:up", "a:down", "a:up"}} {
+		idx++
+		if !r.Mine(idx) {
+			continue
+		}
+		zvC33ConcRun(r, zvC33ConcCase{Conc: true, Scenario: "active", Events: evs, Burst: true, Bound: bound}, nil)
 	}
 }
